@@ -4,6 +4,7 @@ import SJ.Drv.C10
 import SJ.Drv.C12
 import SJ.Drv.C05
 import SJ.Drv.C03
+import SJ.Drv.C16
 /-!
 `sjdriver` — reads case lines `op args… => impl-observation` on stdin, runs the Lean model and the
 executable specification on each, prints
@@ -21,6 +22,7 @@ def allHandlers : List (String × Handler) :=
     C12.handlers,
     C05.handlers,
     C03.handlers,
+    C16.handlers,
   ]
 
 def findHandler (op : String) : Option Handler := (allHandlers.find? (·.1 == op)).map (·.2)
